@@ -11,6 +11,9 @@ Spec: spec/TokenAware.tla - TokenAwarePlan(reps, child, up, dist, shuffle) = rep
       spec/ReplicaCache.tla: the lazy build of the keyspace's replica map by the first plan, concurrent with an
       alteration of the settings (one action per critical section); every interleaving replayed with DetSched on
       the real TokenMap (scheduler-aware _rebuild_lock, yield inside the map computation).
+      Keyspace choice: (session keyspace, statement keyspace) pairs over two keyspaces with different replicas for
+      the key: the statement's keyspace wins when it names one (StatementKeyspaceWins); bound on a real Metadata
+      with two NetworkTopologyStrategy keyspaces.
 Bind: every enumerated input combination is evaluated on the real TokenAwarePolicy wrapping a fixed-plan child
       policy, over a real Metadata whose token map and keyspace come from a Placement.tla instance whose real
       get_replicas list for the chosen key has the enumerated length (hosts renamed so that the lists coincide);
@@ -355,9 +358,144 @@ def cache_domain(ctx, by_sig, hists, static):
     return True
 
 
+KS_WITNESSES = ["Witness_StatementOverridesSession", "Witness_SessionKeyspaceUsed"]
+ONE_KS = {"SessionKs": {"none"}, "StmtKs": {"a"}, "KeyChoices": "{TRUE}"}
+
+
+class KeyspacePair:
+    """Real Metadata with two keyspaces of different replication over one ring: host h alone in datacenter h, one
+    token each; keyspace "a"/"b" = NetworkTopologyStrategy with rf 1 in the datacenter of its single replica (or in a
+    datacenter without hosts: no replica)."""
+
+    def __init__(self, n, reps, reps2):
+        self.n = n
+        self.P = L.repo_import("cassandra.policies")
+        self.Q = L.repo_import("cassandra.query")
+        self.hosts = PL.make_hosts(list(range(1, n + 1)), [1] * n)
+
+        def strat(r):
+            rfs = [0] * (n + 1)
+            rfs[(r[0] - 1) if r else n] = 1
+            return {"kind": "NTS", "rfs": rfs}
+        self.md, names = PL.build_metadata(list(range(1, n + 1)), self.hosts, [strat(reps), strat(reps2)])
+        self.names = {"a": names[0], "b": names[1], "none": None}
+        self.inv = {v.endpoint: k for k, v in self.hosts.items()}
+        self.key = PL.key_bytes(1)
+
+    def replicas(self, ks):
+        return [self.inv.get(r.endpoint, 0) for r in self.md.get_replicas(self.names[ks], self.key)]
+
+    def plan(self, sks, qks, has_key, child, up, dist, shuffle):
+        HD = self.P.HostDistance
+        names = {"LOCAL": HD.LOCAL, "REMOTE": HD.REMOTE, "IGNORED": HD.IGNORED}
+        try:
+            for h, host in self.hosts.items():
+                host.is_up = {"T": True, "F": False, "N": None}[up[h]]
+            fixed = L.make_fixed_child({self.hosts[h]: names[d] for h, d in dist.items()}, [self.hosts[h] for h in child])
+            pol = self.P.TokenAwarePolicy(fixed, shuffle_replicas=shuffle)
+            pol.populate(L._Cluster(self.md, []), list(self.hosts.values()))
+            stmt = self.Q.SimpleStatement("SELECT v FROM t WHERE k = 0", routing_key=self.key if has_key else None,
+                                          keyspace=self.names[qks])
+            return [self.inv.get(getattr(h, "endpoint", None), 0) for h in pol.make_query_plan(self.names[sks], stmt)], None
+        except Exception as ex:
+            return [], "%s: %s" % (type(ex).__name__, ex)
+
+
+def ks_state(st):
+    n = len(st["up"])
+    return {"n": n, "reps": [int(x) for x in st["reps"]], "reps2": [int(x) for x in st["reps2"]],
+            "child": [int(x) for x in st["child"]], "up": {h + 1: str(v) for h, v in enumerate(st["up"])},
+            "dist": {h + 1: str(v) for h, v in enumerate(st["dist"])}, "shuffle": bool(st["shuffle"]),
+            "head": [int(x) for x in st["head"]], "tail": [int(x) for x in st["tail"]],
+            "sks": str(st["sks"]), "qks": str(st["qks"]), "hasKey": bool(st["hasKey"])}
+
+
+def ks_evaluate(d, cache=None):
+    """One (session keyspace, statement keyspace) combination on the real policy. Returns failures or None (unbound)."""
+    key = (d["n"], tuple(d["reps"]), tuple(d["reps2"]))
+    kp = cache.get(key) if cache is not None else None
+    if kp is None:
+        kp = KeyspacePair(d["n"], d["reps"], d["reps2"])
+        if cache is not None:
+            cache[key] = kp
+    if kp.replicas("a") != d["reps"] or kp.replicas("b") != d["reps2"]:
+        return None
+    plan, err = kp.plan(d["sks"], d["qks"], d["hasKey"], d["child"], d["up"], d["dist"], d["shuffle"])
+    if err:
+        return [("exception", err)]
+    eff = d["qks"] if d["qks"] != "none" else d["sks"]
+    effreps = {"a": d["reps"], "b": d["reps2"], "none": []}[eff] if d["hasKey"] else []
+    fails = L.tokenaware_failures(plan, d["head"], d["tail"], d["child"], effreps, d["up"], d["dist"], d["shuffle"])
+    if fails and d["hasKey"] and d["qks"] != "none" and d["sks"] not in ("none", d["qks"]):
+        fails = [("wrong-keyspace", "session keyspace %r (replicas %s), statement keyspace %r (replicas %s): the plan %s does not "
+                  "follow the statement's keyspace, which asks for %s then %s"
+                  % (d["sks"], {"a": d["reps"], "b": d["reps2"]}[d["sks"]], d["qks"], {"a": d["reps"], "b": d["reps2"]}[d["qks"]],
+                     plan, d["head"], d["tail"]))] + fails
+    d["plan"] = plan
+    return fails
+
+
+def ks_domain(ctx, by_sig):
+    """(session keyspace, statement keyspace) pairs over two keyspaces with different replicas for the key."""
+    consts = {"N": 2, "MaxReps": 1}
+    if ctx.quick:
+        consts.update({"SessionKs": {"none", "a"}, "StmtKs": {"none", "b"}, "KeyChoices": "{TRUE}"})
+    else:
+        consts.update({"SessionKs": {"none", "a", "b"}, "StmtKs": {"none", "a", "b"}, "KeyChoices": "{TRUE, FALSE}"})
+    cfg = tlc.write_cfg(os.path.join(ctx.scratch, "TokenAwareKs.cfg"), constants=consts, invariants=INVARIANTS + ["StatementKeyspaceWins"],
+                        deadlock=False)
+    res, states = tlc.enumerate_states("TokenAware", cfg, ctx.scratch, timeout=1200)
+    ctx.add_tlc(res, "exhaustive:keyspaces")
+    if res.violation:
+        ctx.violation("TLC: invariant %s violated in TokenAware.tla" % res.invariant,
+                      replay={"trace": [s for _, s in res.trace()]}, signature="spec:" + str(res.invariant))
+        return False
+    for w in KS_WITNESSES:
+        wc = dict(consts, SessionKs={"none", "a", "b"}, StmtKs={"none", "a", "b"})
+        wcfg = tlc.write_cfg(os.path.join(ctx.scratch, w + ".cfg"), constants=wc, invariants=[w], deadlock=False)
+        wres = tlc.check_model("TokenAware", wcfg, ctx.scratch, timeout=600, workers=2, heap="1g")
+        if wres.invariant != w:
+            raise tlc.MachineryError("vacuity witness %s was not reached" % w)
+    ctx.note("constants_keyspaces", {k: (sorted(v) if isinstance(v, set) else v) for k, v in consts.items()})
+    cache, unbound, done = {}, 0, 0
+    states.sort(key=lambda s: repr(sorted(s.items())))
+    for i, st in enumerate(states):
+        d = ks_state(st)
+        fails = ks_evaluate(d, cache)
+        if fails is None:
+            unbound += 1
+            continue
+        ctx.evaluations += 1
+        done += 1
+        if fails:
+            det = {"n": d["n"], "reps": d["reps"], "child": d["child"], "up": d["up"], "dist": d["dist"], "shuffle": d["shuffle"],
+                   "head": d["head"], "tail": d["tail"], "key_position": 1, "ring_instance": {}, "keyspaces": d}
+            by_sig.setdefault("TokenAware:" + fails[0][0], []).append((len(d["child"]) + len(d["reps"]) + len(d["reps2"]), det, fails))
+            continue
+        ctx.traces_validated += 1
+        if d["sks"] != "none" and d["qks"] != "none" and d["reps"] != d["reps2"]:
+            ctx.nontrivial(("ks", repr(sorted(d.items(), key=repr))))
+        if i % 2500 == 13:
+            ctx.sample({k: d[k] for k in ("sks", "qks", "hasKey", "reps", "reps2", "child", "up", "dist", "plan")})
+    ctx.note("keyspace_combinations_checked", done)
+    if unbound > len(states) // 10:
+        raise tlc.MachineryError("%d of %d keyspace combinations could not be bound" % (unbound, len(states)))
+    # self-test: judged against the other keyspace's replicas the verdict must change
+    probe = next((ks_state(s) for s in states if str(s["sks"]) == "a" and str(s["qks"]) == "b" and len(s["reps"]) == 1 and len(s["reps2"]) == 1
+                  and s["reps"] != s["reps2"] and len(s["head"]) == 1 and len(s["child"]) == 2 and bool(s["hasKey"])), None)
+    if probe is None:
+        raise tlc.MachineryError("no (session a, statement b) combination for the self-test")
+    swapped = dict(probe, head=[probe["reps"][0]], tail=[h for h in probe["child"] if h != probe["reps"][0]])
+    if ks_evaluate(dict(swapped)) == ks_evaluate(dict(probe)):
+        raise tlc.MachineryError("binding self-test failed: the keyspace whose replicas are expected does not influence the verdict")
+    st = ctx.extra.setdefault("binding_selftest", {"corrupted_rejected": 0})
+    st["corrupted_rejected"] += 1
+    return True
+
+
 def run(ctx):
     L.seed_shuffle(ctx.rng)
-    wconsts = {"N": 2, "MaxReps": 2}
+    wconsts = dict({"N": 2, "MaxReps": 2}, **ONE_KS)
     for w in WITNESSES:
         wcfg = tlc.write_cfg(os.path.join(ctx.scratch, w + ".cfg"), constants=wconsts, invariants=[w], deadlock=False)
         wres = tlc.check_model("TokenAware", wcfg, ctx.scratch, timeout=600, workers=2, heap="1g")
@@ -374,6 +512,8 @@ def run(ctx):
             return
     if not alter_domain(ctx, by_sig):
         return
+    if not ks_domain(ctx, by_sig):
+        return
     counts = {}
     for sig, lst in sorted(by_sig.items()):
         counts[sig] = len(lst)
@@ -385,6 +525,9 @@ def run(ctx):
                 seen.add(k)
                 uniq.append(t)
         for _, det, fails in uniq[:MAX_REPORTED_PER_SIGNATURE]:
+            if "keyspaces" in det:
+                ctx.violation(fails[0][1], replay={"keyspaces": det["keyspaces"], "failures": [list(f) for f in fails]}, signature=sig)
+                continue
             if "cache" in det:
                 ctx.violation(fails[0][1], replay={"cache": det["cache"], "failures": [list(f) for f in fails]}, signature=sig)
                 continue
@@ -408,7 +551,7 @@ def run(ctx):
 
 
 def one_domain(ctx, n, maxreps, per_state, by_sig):
-    consts = {"N": n, "MaxReps": maxreps}
+    consts = dict({"N": n, "MaxReps": maxreps}, **ONE_KS)
     cfg = tlc.write_cfg(os.path.join(ctx.scratch, "TokenAware_%d_%d.cfg" % (n, maxreps)), constants=consts,
                         invariants=INVARIANTS, deadlock=False)
     res, states = tlc.enumerate_states("TokenAware", cfg, ctx.scratch, timeout=2400)
@@ -468,6 +611,18 @@ def one_domain(ctx, n, maxreps, per_state, by_sig):
 
 def replay(ctx, obj):
     L.seed_shuffle(ctx.rng)
+    if "keyspaces" in obj:
+        d = obj["keyspaces"]
+        d["up"] = {int(k): v for k, v in d["up"].items()}
+        d["dist"] = {int(k): v for k, v in d["dist"].items()}
+        fails = ks_evaluate(d)
+        print("session keyspace %s, statement keyspace %s, replicas a=%s b=%s, child %s: plan %s, specified %s + %s"
+              % (d["sks"], d["qks"], d["reps"], d["reps2"], d["child"], d.get("plan"), d["head"], d["tail"]))
+        if fails:
+            ctx.violation("replayed: %s" % fails[0][1], replay=obj, signature="TokenAware:" + fails[0][0])
+        else:
+            print("no mismatch")
+        return
     if "cache" in obj:
         c = obj["cache"]
         h = c["instance"]
